@@ -214,7 +214,7 @@ def run_one(job):
                             "-n", str(procs), "--timeout=300", "tests"], cwd=w, env=dict(os.environ, PYTHONPATH=w), capture_output=True, text=True)
         last = r.stdout.strip().splitlines()[-1] if r.stdout.strip() else ""
         rec["tests"] = last[:80]
-        if not re.match(r"^1466 passed, 86 errors", last):
+        if not re.match(r"^1466 passed, \d+ errors? in", last):
             rec["status"] = "killed_by_suite"
             return rec
         rec["status"] = "missed"
